@@ -75,6 +75,27 @@ def run_script(ctx, sc):
     return res
 
 
+def replay_script(ctx, r):
+    """type the key history of a replay file and compare the state after the last command with the expectation in it"""
+    keys = b"".join(h.encode("utf-8", "surrogateescape") for h in r["history"])
+    out = {}
+    for ai in ((1, 0) if "ai" not in r else (r["ai"],)):
+        pre = b":se noai\n" if not ai else b""
+        recs, rc, err, to, work = run_vi(ctx, ["-v"], pre + keys + b":q!\n", env_extra={"LINES": str(r.get("rows", 23) + 1), "COLUMNS": "80"}, timeout=30)
+        shutil.rmtree(work, True)
+        st = vi_states(recs)
+        idx = (2 if pre else 1) + len(r["history"]) - 1
+        if idx >= len(st):
+            out = {"field": "incomplete", "stderr": err[-1500:]}
+            continue
+        f = compare(r["expected"], st[idx], "WINDOW" if r.get("profile") == "scroll" else r.get("kind"))
+        out = {"field": f, "autoindent": ai, "expected": {k: r["expected"].get(k) for k in ("row", "off", "xcol", "top")},
+               "got": {k: st[idx][k] for k in ("row", "off", "xcol", "top")}}
+        if not f:
+            return out          # reproduces under neither setting only if both differ
+    return out
+
+
 def gen(ctx, profile, nscripts, nsteps, ai=1, rows=23):
     env, info = lib_env(ctx)
     env = dict(env, ROWS=rows)
